@@ -238,3 +238,81 @@ Proof.
   split; [exact R1|]. split; [lia|]. split; [exact R2|].
   exact (delete_lines_spec rows e y a1 a2 t k r2 (-1) cl cc pc e1 Hy HW HV E Hln R1 R2 X).
 Qed.
+
+(* ====================================================================================== *)
+(* totality                                                                                  *)
+(* ====================================================================================== *)
+(* ---------- no command runs out of fuel on a non-empty buffer ---------- *)
+Lemma exec1_total rows c e : est_inv e -> s_buf e <> [] -> exec1 rows c e <> None.
+Proof.
+  intros (HV & HW & HC) NE. pose proof (cursor_ok_vpos _ _ _ NE HC) as V. destruct V as (l & El & Ho).
+  assert (RN : ren_noeol (getl (s_buf e) (v_row (s_vs e))) (v_off (s_vs e)) = v_off (s_vs e)).
+  { rewrite El. apply ren_noeol_id; [apply (getl_wf _ _ _ HW El)|]. unfold cursor_ok in HC. rewrite El in HC. exact HC. }
+  assert (NF : forall top cl cc pc has cnt k, vi_motion (s_buf e) rows top cl cc pc has cnt k (v_row (s_vs e)) (v_off (s_vs e)) <> MvFuel).
+  { intros. apply vi_motion_total_wf; [exact HW|]. exists l. auto. }
+  destruct c; cbn [exec1]; try discriminate.
+  - unfold do_motion. rewrite RN. destruct (vi_motion _ _ _ _ _ _ _ _ _ _ _) eqn:M; try discriminate. exfalso. eapply NF, M.
+  - unfold exec_op. rewrite RN. unfold op_target. destruct t as [k|]; [|discriminate].
+    destruct (vi_motion _ _ _ _ _ _ _ _ _ _ _) eqn:M; try discriminate. exfalso. eapply NF, M.
+Qed.
+
+Lemma getl_nil r : getl [] r = None.
+Proof. unfold getl. destruct (r <? 0); [reflexivity|]. destruct (Z.to_nat r); reflexivity. Qed.
+Lemma lchr_nil r o : lchr [] r o = [].
+Proof. unfold lchr. rewrite getl_nil. reflexivity. Qed.
+Lemma lbuf_next_nil dir r o : exists r', lbuf_next [] dir r o = (true, r', o).
+Proof.
+  unfold lbuf_next, lbuf_lnnext. rewrite !getl_nil. eexists. reflexivity.
+Qed.
+Lemma iter_break_first {A} (step : A -> option (bool * A)) x : (forall y, exists z, step y = Some (true, z)) ->
+  forall n, exists z, iter_break n step x = Some z.
+Proof. intros H n. destruct n; cbn [iter_break]; [eexists; reflexivity|]. destruct (H x) as (z & ->). eexists. reflexivity. Qed.
+
+Lemma vi_motion_empty rows top cl cc pc has cnt k row off : vi_motion [] rows top cl cc pc has cnt k row off <> MvFuel.
+Proof.
+  unfold vi_motion. destruct (vi_motionln [] rows top has cnt k row) as [[r1|]|]; try discriminate.
+  assert (WL : forall kind dir r o, exists s r', lbuf_wordlast (mfuel []) [] kind dir r o = Some (s, r', o)).
+  { intros. unfold lbuf_wordlast. destruct (N.eqb kind 0 || negb (kmatch [] kind r o)); [do 2 eexists; reflexivity|].
+    change (mfuel []) with 2%nat. cbn [wordlast_loop]. destruct (kmatch [] kind r o).
+    - destruct (lbuf_next_nil dir r o) as (r' & ->). do 2 eexists. reflexivity.
+    - destruct (lbuf_next_nil (- dir) r o) as (r' & ->). do 2 eexists. reflexivity. }
+  assert (WB : forall big r o, exists z, wstep (lbuf_wordbeg (mfuel []) [] big 1) (r, o) = Some (true, z)).
+  { intros. unfold wstep, lbuf_wordbeg. cbn [fst snd].
+    destruct (WL (if big then 3%N else kindof [] r o) 1 r o) as (s0 & r' & ->). rewrite lchr_nil.
+    destruct (lbuf_next_nil 1 r' o) as (r'' & ->). eexists. reflexivity. }
+  assert (WE : forall big dir r o, exists z, wstep (lbuf_wordend (mfuel []) [] big dir) (r, o) = Some (true, z)).
+  { intros. unfold wstep, lbuf_wordend. cbn [fst snd]. rewrite lchr_nil. cbn [uc_isspace hd0 negb]. 
+    change (uc_isspace []) with false. cbn [negb]. destruct (lbuf_next_nil dir r o) as (r' & E). rewrite E. eexists. reflexivity. }
+  assert (NO : forall dir p, exists z, vi_nextoff [] dir p = Some (true, z)).
+  { intros dir [r o]. unfold vi_nextoff, lbuf_lnnext. rewrite getl_nil. eexists. reflexivity. }
+  assert (NC : forall dir p, exists z, vi_nextcol [] dir p = Some (true, z)).
+  { intros dir [r o]. unfold vi_nextcol. rewrite getl_nil. eexists. reflexivity. }
+  assert (WB' : forall big y, exists z, wstep (lbuf_wordbeg (mfuel []) [] big 1) y = Some (true, z)) by (intros big [r o]; apply WB).
+  assert (WE' : forall big dir y, exists z, wstep (lbuf_wordend (mfuel []) [] big dir) y = Some (true, z)) by (intros big dir [r o]; apply WE).
+  assert (IB : forall (st : Z * Z -> option (bool * (Z * Z))), (forall y, exists z, st y = Some (true, z)) ->
+     match iter_break (Z.to_nat cnt) st (row, off) with Some (r, o) => MvOk r o cl cc pc | None => MvFuel end <> MvFuel).
+  { intros st H. destruct (iter_break_first st (row, off) H (Z.to_nat cnt)) as ([r' o'] & ->). discriminate. }
+  destruct k; try discriminate;
+    try (unfold lbuf_findchar; rewrite getl_nil; discriminate);
+    try (apply IB; first [apply WB'|apply WE'|apply NO|apply NC]).
+  - destruct cl; [discriminate|]. unfold lbuf_findchar. rewrite getl_nil. discriminate.
+  - destruct cl; [discriminate|]. unfold lbuf_findchar. rewrite getl_nil. discriminate.
+  - unfold lbuf_pair. rewrite getl_nil. cbn [pair_scan]. rewrite lchr_nil. cbn. discriminate.
+  - rewrite iter_nobreak. destruct (Nat.iter _ _ _). discriminate.
+  - rewrite iter_nobreak. destruct (Nat.iter _ _ _). discriminate.
+Qed.
+
+Lemma exec1_total_all rows c e : est_inv e -> exec1 rows c e <> None.
+Proof.
+  intro HI. destruct (s_buf e) as [|l0 b0] eqn:Eb; [|apply exec1_total; [exact HI|rewrite Eb; discriminate]].
+  destruct c; cbn [exec1]; try discriminate.
+  - unfold do_motion. rewrite Eb. destruct (vi_motion [] _ _ _ _ _ _ _ _ _ _) eqn:M; try discriminate. exfalso. eapply vi_motion_empty, M.
+  - unfold exec_op, op_target. rewrite Eb. destruct t as [k|]; [|discriminate].
+    destruct (vi_motion [] _ _ _ _ _ _ _ _ _ _) eqn:M; try discriminate. exfalso. eapply vi_motion_empty, M.
+Qed.
+Lemma exec_total rows cs : forall e, est_inv e -> Forall cmd_valid cs -> exists e', exec rows cs e = Some e' /\ est_inv e'.
+Proof.
+  induction cs as [|c cs IH]; intros e HI Hc; cbn [exec]; [exists e; auto|].
+  inversion Hc; subst. destruct (exec1 rows c e) as [e1|] eqn:E1; [|exfalso; eapply exec1_total_all; eassumption].
+  apply IH; [eapply exec1_inv; eassumption|assumption].
+Qed.
